@@ -291,13 +291,46 @@ def judge_netcdf(ctx, s, r, wit):
 
 
 # ------------------------------------------------------------------ concatenation
+def gridded_spectrum(g):
+    """a (latitude x longitude) gridded spectrum whose position lives in the coordinates; members picked from it with
+    isel carry their position as scalar coordinates (and time/depth as scalar variables)"""
+    import xarray
+    from ocean_science_utilities.wavespectra.spectrum import FrequencyDirectionSpectrum, FrequencySpectrum
+    space = ("latitude", "longitude")
+    coords = {"latitude": np.asarray(g["lat"], float), "longitude": np.asarray(g["lon"], float),
+              "frequency": np.asarray(g["freq"], float)}
+    E = np.array(g["E"], dtype=float)
+    if g["kind"] == "1d":
+        dims = space + ("frequency",)
+        variables = {"variance_density": (dims, E)}
+        for k in ("a1", "b1", "a2", "b2"):
+            variables[k] = (dims, np.array(g[k], dtype=float))
+        cls = FrequencySpectrum
+    else:
+        dims = space + ("frequency", "direction")
+        coords["direction"] = np.asarray(g["dir"], float)
+        variables = {"variance_density": (dims, E)}
+        cls = FrequencyDirectionSpectrum
+    variables["time"] = (space, np.asarray(g["time"]).astype("int64").astype("datetime64[s]").astype("datetime64[ns]"))
+    variables["depth"] = (space, np.array(g["depth"], dtype=float))
+    return cls(xarray.Dataset(variables, coords=coords))
+
+
 def concat_case(ctx, c):
     from ocean_science_utilities.wavespectra.operations import concatenate_spectra
-    members = [gs.build(g) for g in c["members"]]
-    n = len(members)
     mode = c["mode"]
-    ctx.case(("concat", mode, members[0].__class__.__name__, n), nontrivial=n >= 2,
-             sample={"mode": mode, "n": n, "kind": c["members"][0]["kind"]})
+    if mode == "picked":
+        grid = gridded_spectrum(c["grid"])
+        members = [grid.isel(latitude=int(i), longitude=int(j)) for i, j in c["picks"]]
+        kind_ = c["grid"]["kind"]
+        mode = "time"
+        ctx.count("C15.concatenations_of_members_picked_from_a_grid")
+    else:
+        members = [gs.build(g) for g in c["members"]]
+        kind_ = c["members"][0]["kind"]
+    n = len(members)
+    ctx.case(("concat", c["mode"], members[0].__class__.__name__, n), nontrivial=n >= 2,
+             sample={"mode": c["mode"], "n": n, "kind": kind_})
     wit = lambda: {"concat": c}  # noqa
     before = [snapshot(m) for m in members]
     if mode == "time":
@@ -422,6 +455,22 @@ def gen_concat(rng):
     else:
         layout = str(rng.choice(["scalar", "time", "time_lat"]))
         members = family(rng, kind, layout, n)
+    if rng.uniform() < 0.25:
+        nla, nlo, nf = int(rng.integers(2, 4)), int(rng.integers(2, 4)), int(rng.integers(3, 8))
+        g = {"kind": kind, "lat": np.sort(rng.uniform(-60, 60, nla)), "lon": np.sort(rng.uniform(-170, 170, nlo)),
+             "freq": np.sort(rng.uniform(0.03, 0.6, nf)),
+             "time": (int(rng.integers(0, 10 ** 9)) + rng.permutation(nla * nlo).reshape(nla, nlo) * 3600).astype("int64"),
+             "depth": np.round(rng.uniform(5, 500, (nla, nlo)), 1)}
+        if kind == "1d":
+            g["E"] = rng.uniform(0, 2, (nla, nlo, nf))
+            a1, b1, a2, b2 = gs.moments_in_disc(rng, (nla, nlo, nf))
+            g.update({"a1": a1, "b1": b1, "a2": a2, "b2": b2})
+        else:
+            g["dir"] = np.arange(8) * 45.0
+            g["E"] = rng.uniform(0, 2, (nla, nlo, nf, 8))
+        cells = [(i, j) for i in range(nla) for j in range(nlo)]
+        picks = [cells[k] for k in rng.permutation(len(cells))[:int(rng.integers(2, len(cells) + 1))]]
+        return {"mode": "picked", "grid": g, "picks": picks}
     return {"mode": mode, "members": members}
 
 
